@@ -364,28 +364,20 @@ theorem tcpWriteFinish_cases (n : NetSt) (name : String) (op : WriteOp) (r : Exc
 
 /-! ### connect -/
 
-/-- handler ids an effect list binds into a connect timer's callback (a refused connect: the
-    handler leaves the socket and will be invoked by the timer) -/
-def _root_.SimVerif.parkIds : List NEff → List Nat
-  | [] => []
-  | .armAfter _ _ _ (.tcpConnectRefused _ h) :: rest => h :: parkIds rest
-  | .armTimer _ _ _ (.tcpConnectRefused _ h) :: rest => h :: parkIds rest
-  | _ :: rest => parkIds rest
-
-theorem parkIds_append (a b : List NEff) : parkIds (a ++ b) = parkIds a ++ parkIds b := by
+theorem parkedOf_append (a b : List NEff) : parkedOf (a ++ b) = parkedOf a ++ parkedOf b := by
   induction a with
   | nil => rfl
   | cons e rest ih =>
     cases e with
-    | armAfter o sl d cb => cases cb <;> simp [parkIds, ih]
-    | armTimer o sl d cb => cases cb <;> simp [parkIds, ih]
-    | _ => simp [parkIds, ih]
+    | armAfter o sl d cb => cases cb <;> simp [parkedOf, ih]
+    | armTimer o sl d cb => cases cb <;> simp [parkedOf, ih]
+    | _ => simp [parkedOf, ih]
 
 theorem silent_internalConnect (n : NetSt) (name : String) (target : Ep) :
     silent (n.internalConnect name target).2.1 ∧ (n.internalConnect name target).1.tcps = n.tcps
-    ∧ parkIds (n.internalConnect name target).2.1 = [] := by
+    ∧ parkedOf (n.internalConnect name target).2.1 = [] := by
   unfold NetSt.internalConnect
-  splits <;> simp [NEff.isSilent, parkIds]
+  splits <;> simp [NEff.isSilent, parkedOf]
 
 theorem silent_internalConnect' {n n' : NetSt} {name : String} {target : Ep} {e1 : List NEff} {cid : Option Nat}
     (h : n.internalConnect name target = (n', e1, cid)) : silent e1 := by
@@ -451,30 +443,30 @@ theorem tcpConnectBind_props (n : NetSt) (name : String) (s : TcpSock) (target :
     | exact ⟨TCons.setTcp_same_slots' hs rfl rfl rfl rfl rfl rfl, _, setTcp_tcp_same _ _ _, rfl, rfl, rfl, rfl, rfl⟩
 
 theorem tcons_tcpConnectFin (n : NetSt) (name : String) (target : Ep) (h : Nat) (e0 : List NEff) (ecb : Ec)
-    (s : TcpSock) (hs : n.tcp? name = some s) (hc : s.connectH = none) (he0 : parkIds e0 = []) :
+    (s : TcpSock) (hs : n.tcp? name = some s) (hc : s.connectH = none) (he0 : parkedOf e0 = []) :
     ∃ new, TCons n (tcpConnectFin n name target h e0 ecb).1
         (List.drop e0.length (tcpConnectFin n name target h e0 ecb).2) new
       ∧ (tcpConnectFin n name target h e0 ecb).2 = e0 ++ List.drop e0.length (tcpConnectFin n name target h e0 ecb).2
-      ∧ (new ++ parkIds (tcpConnectFin n name target h e0 ecb).2).Perm [h] := by
+      ∧ (new ++ parkedOf (tcpConnectFin n name target h e0 ecb).2).Perm [h] := by
   unfold tcpConnectFin
   split
   · exact ⟨[h], by simpa [effIds] using (⟨id, fun _ z => by simp [effIds]⟩ : TCons n n [.post { h := h, ec := ecb }] [h]),
-      by simp, by simp [parkIds_append, he0, parkIds]⟩
+      by simp, by simp [parkedOf_append, he0, parkedOf]⟩
   · rw [hs]; dsimp only
     split
     · exact ⟨[h], by simpa [effIds] using (⟨id, fun _ z => by simp [effIds]⟩ : TCons n n [.post { h := h, ec := .afNoSupport }] [h]),
-        by simp, by simp [parkIds_append, he0, parkIds]⟩
+        by simp, by simp [parkedOf_append, he0, parkedOf]⟩
     · obtain ⟨hsil, htc, hpk⟩ := silent_internalConnect n name target
       have hs1 : (n.internalConnect name target).1.tcp? name = some s := by
         unfold NetSt.tcp? at hs ⊢; rw [htc]; exact hs
       rw [hs1]; dsimp only
       split
-      · refine ⟨[], ?_, by simp, by simp [parkIds_append, he0, hpk, parkIds]⟩
+      · refine ⟨[], ?_, by simp, by simp [parkedOf_append, he0, hpk, parkedOf]⟩
         simp only [List.append_assoc, List.drop_left]
         refine TCons.congr (e := []) (TCons.setTcp_present' hs htc (fun hx => ⟨?_, hx⟩)) ?_ rfl
         · unfold TcpSock.slotIds TcpSock.acceptOp; dsimp only; simp
         · rw [effIds_append, effIds_silent hsil]; rfl
-      · refine ⟨[h], ?_, by simp, by simp [parkIds_append, he0, hpk]⟩
+      · refine ⟨[h], ?_, by simp, by simp [parkedOf_append, he0, hpk]⟩
         simp only [List.drop_left]
         refine TCons.congr (e := []) (TCons.setTcp_present' hs htc (fun hx => ⟨?_, hx⟩)) ?_ rfl
         · unfold TcpSock.slotIds TcpSock.acceptOp; dsimp only; rw [hc]
@@ -515,22 +507,22 @@ theorem tcpOpen_some (n : NetSt) (now : Int) (name : String) (v4 : Bool) (s0 : T
   exact ⟨rfl, _, setTcp_tcp_same _ _ _, b.1, b.2.1, b.2.2.1, b.2.2.2.1, b.2.2.2.2.1, rfl, rfl,
     b.2.2.2.2.2.2.2.1, b.2.2.2.2.2.2.2.2.1, b.2.2.2.2.2.2.2.2.2⟩
 
-theorem parkIds_tcpSendPacket (n : NetSt) (now : Int) (name : String) (p : Pkt) :
-    parkIds (n.tcpSendPacket now name p).2 = [] := by
+theorem parkedOf_tcpSendPacket (n : NetSt) (now : Int) (name : String) (p : Pkt) :
+    parkedOf (n.tcpSendPacket now name p).2 = [] := by
   unfold NetSt.tcpSendPacket
-  splits <;> simp [parkIds, parkIds_append]
+  splits <;> simp [parkedOf, parkedOf_append]
 
-theorem parkIds_tcpCancelEffs (s : TcpSock) : parkIds (tcpCancelEffs s) = [] := by
+theorem parkedOf_tcpCancelEffs (s : TcpSock) : parkedOf (tcpCancelEffs s) = [] := by
   unfold tcpCancelEffs tcpAbortRecvEffs tcpAbortSendEffs tcpAbortConnEffs
-  cases s.recvH <;> cases s.waitRecvH <;> cases s.sendH <;> cases s.connectH <;> simp [parkIds]
+  cases s.recvH <;> cases s.waitRecvH <;> cases s.sendH <;> cases s.connectH <;> simp [parkedOf]
 
-theorem parkIds_tcpClose (n : NetSt) (now : Int) (name : String) : parkIds (n.tcpClose now name).2 = [] := by
+theorem parkedOf_tcpClose (n : NetSt) (now : Int) (name : String) : parkedOf (n.tcpClose now name).2 = [] := by
   cases h : n.tcp? name with
   | none => rw [tcpClose_eq, h]; rfl
   | some s0 =>
-    rw [(tcpClose_some n now name s0 h).1, parkIds_append, parkIds_tcpCancelEffs]
+    rw [(tcpClose_some n now name s0 h).1, parkedOf_append, parkedOf_tcpCancelEffs]
     unfold tcpCloseEof
-    splits <;> simp [parkIds, parkIds_tcpSendPacket]
+    splits <;> simp [parkedOf, parkedOf_tcpSendPacket]
 
 /-- **`async_connect`** conserves handler ids: the new handler is posted at once (bind error /
     wrong family), parked in the connect slot, or bound into the connect timer (refused).
@@ -538,16 +530,16 @@ theorem parkIds_tcpClose (n : NetSt) (now : Int) (name : String) : parkIds (n.tc
 theorem tcons_tcpConnect (n : NetSt) (now : Int) (name : String) (target : Ep) (h : Nat) (s0 : TcpSock)
     (hs0 : n.tcp? name = some s0) (hpre : s0.isOpen = true → s0.connectH = none) :
     ∃ new, TCons n (n.tcpConnect now name target h).1 (n.tcpConnect now name target h).2 new
-      ∧ (new ++ parkIds (n.tcpConnect now name target h).2).Perm [h] := by
+      ∧ (new ++ parkedOf (n.tcpConnect now name target h).2).Perm [h] := by
   rw [tcpConnect_eq, hs0]; dsimp only
   -- phase A: open if necessary
   have hA : ∀ a : NetSt × List NEff, a = (if (!s0.isOpen) = true then n.tcpOpen now name target.isV4 else (n, [])) →
-      ∃ s, a.1.tcp? name = some s ∧ s.connectH = none ∧ TCons n a.1 a.2 [] ∧ parkIds a.2 = [] := by
+      ∃ s, a.1.tcp? name = some s ∧ s.connectH = none ∧ TCons n a.1 a.2 [] ∧ parkedOf a.2 = [] := by
     intro a ha
     split at ha
     · subst ha
       obtain ⟨he, s', hs', b⟩ := tcpOpen_some n now name target.isV4 s0 hs0
-      exact ⟨s', hs', b.2.2.2.1, tcons_tcpOpen _ _ _ _, by rw [he, parkIds_tcpClose]⟩
+      exact ⟨s', hs', b.2.2.2.1, tcons_tcpOpen _ _ _ _, by rw [he, parkedOf_tcpClose]⟩
     · rename_i ho
       subst ha
       exact ⟨s0, hs0, hpre (by simpa using ho), TCons.refl n, rfl⟩
@@ -810,11 +802,6 @@ theorem chanLen_tcpAttach (n : NetSt) (now : Int) (peer : String) (bindEp : Ep) 
 theorem chan?_isSome_iff (n : NetSt) (c : Nat) : (n.chan? c).isSome ↔ c < n.chans.length := by
   unfold NetSt.chan?; simp
 
-/-- the connections queued at acceptor `name` are valid channel ids (in the C++ the queue holds
-    `shared_ptr<channel>`: always valid) -/
-def _root_.SimVerif.AccConnsOk (n : NetSt) (name : String) : Prop :=
-  ∀ s a, n.tcp? name = some s → s.acc = some a → ∀ c ∈ a.conns, c < n.chans.length
-
 theorem silent_rsts (n : NetSt) (l : List Nat) (src : String) :
     silent (l.filterMap (fun c => (n.chan? c).map (fun ch =>
       NEff.forward { id := 0, ty := .err, ec := .reset, len := 0, ovh := 28, hops := ch.hops0, src := src }))) := by
@@ -849,7 +836,7 @@ theorem ni_accResetClosed (n : NetSt) (name : String) (s0 : TcpSock) (a0 : AccSt
     simp [silent_noInvoke (silent_rsts n a0.conns s0.bound.toString), ni_tcp_abortAccept]
   · simp
 
-theorem tcons_accTryAccept (n : NetSt) (now : Int) (name : String) (hv : AccConnsOk n name) :
+theorem tcons_accTryAccept (n : NetSt) (now : Int) (name : String) (hv : accConnsOk n name) :
     TCons n (accTryAccept n now name).1 (accTryAccept n now name).2 [] := by
   unfold accTryAccept
   cases hs : n.tcp? name with
@@ -919,17 +906,17 @@ theorem ni_accTryAccept (n : NetSt) (now : Int) (name : String) : noInvoke (accT
             simp only [noInvoke_append, hat, true_and, noInvoke_cons, NEff.isInvoke, noInvoke_nil, and_true]
             cases op <;> rfl
 
-theorem AccConnsOk.mono {n n' : NetSt} {name : String} (hv : AccConnsOk n name)
+theorem accConnsOk_mono {n n' : NetSt} {name : String} (hv : accConnsOk n name)
     (h : ∀ s' a', n'.tcp? name = some s' → s'.acc = some a' →
       ∃ s a, n.tcp? name = some s ∧ s.acc = some a ∧ ∀ c ∈ a'.conns, c ∈ a.conns)
-    (hl : n.chans.length ≤ n'.chans.length) : AccConnsOk n' name := by
+    (hl : n.chans.length ≤ n'.chans.length) : accConnsOk n' name := by
   intro s' a' hs' ha' c hc
   obtain ⟨s, a, hs, ha, hsub⟩ := h s' a' hs' ha'
   exact Nat.lt_of_lt_of_le (hv s a hs ha c (hsub c hc)) hl
 
 theorem accResetClosed_ok (n : NetSt) (name : String) (s0 : TcpSock) (a0 : AccState)
-    (hs : n.tcp? name = some s0) (ha : s0.acc = some a0) (hv : AccConnsOk n name) :
-    AccConnsOk (accResetClosed n name s0 a0).1 name := by
+    (hs : n.tcp? name = some s0) (ha : s0.acc = some a0) (hv : accConnsOk n name) :
+    accConnsOk (accResetClosed n name s0 a0).1 name := by
   unfold accResetClosed
   split
   · dsimp only
@@ -942,7 +929,7 @@ theorem accResetClosed_ok (n : NetSt) (name : String) (s0 : TcpSock) (a0 : AccSt
     rw [this] at hc; cases hc
   · exact hv
 
-theorem tcons_accCheckQueue (n : NetSt) (now : Int) (name : String) (hv : AccConnsOk n name) :
+theorem tcons_accCheckQueue (n : NetSt) (now : Int) (name : String) (hv : accConnsOk n name) :
     TCons n (n.accCheckQueue now name).1 (n.accCheckQueue now name).2 [] := by
   rw [accCheckQueue_eq]
   cases hs : n.tcp? name with
@@ -984,7 +971,7 @@ theorem tcpClose_acc (n : NetSt) (now : Int) (name : String) (b : String) (t : T
 
 /-! ### acceptor entry points -/
 
-theorem tcons_accIncoming (n : NetSt) (now : Int) (name : String) (p : Pkt) (hv : AccConnsOk n name)
+theorem tcons_accIncoming (n : NetSt) (now : Int) (name : String) (p : Pkt) (hv : accConnsOk n name)
     (hp : ∀ c, p.chan = some c → c < n.chans.length) :
     TCons n (n.accIncoming now name p).1 (n.accIncoming now name p).2 [] := by
   unfold NetSt.accIncoming
@@ -1048,10 +1035,10 @@ theorem accAsyncAccept_eq (n : NetSt) (now : Int) (name : String) (op : AcceptOp
     same accept state, its queued connections still valid -/
 theorem accAcceptPrep_props (n : NetSt) (now : Int) (name : String) (op : AcceptOp) (s : TcpSock)
     (hs : n.tcp? name = some s)
-    (hfresh : ∀ h nn, op = .fresh h nn → n.tcp? nn = none) (hv : AccConnsOk n name) :
+    (hfresh : ∀ h nn, op = .fresh h nn → n.tcp? nn = none) (hv : accConnsOk n name) :
     TCons n (accAcceptPrep n now name op).1 (accAcceptPrep n now name op).2 []
     ∧ (∃ s', (accAcceptPrep n now name op).1.tcp? name = some s' ∧ s'.acc = s.acc)
-    ∧ AccConnsOk (accAcceptPrep n now name op).1 name
+    ∧ accConnsOk (accAcceptPrep n now name op).1 name
     ∧ noInvoke (accAcceptPrep n now name op).2 := by
   unfold accAcceptPrep
   cases op with
@@ -1064,7 +1051,7 @@ theorem accAcceptPrep_props (n : NetSt) (now : Int) (name : String) (op : Accept
       split
       · obtain ⟨t', ht', ha'⟩ := tcpClose_acc n now peer name s hs
         refine ⟨tcons_tcpClose n now peer, ⟨t', ht', ha'⟩, ?_, ni_tcpClose _ _ _⟩
-        refine AccConnsOk.mono hv ?_ (by rw [chanLen_tcpClose]; exact Nat.le_refl _)
+        refine accConnsOk_mono hv ?_ (by rw [chanLen_tcpClose]; exact Nat.le_refl _)
         intro s' a' hs' hacc
         rw [ht'] at hs'; cases hs'
         exact ⟨s, a', hs, by rw [← ha', hacc], fun c hc => hc⟩
@@ -1075,7 +1062,7 @@ theorem accAcceptPrep_props (n : NetSt) (now : Int) (name : String) (op : Accept
     have hnn := hfresh h nn rfl
     have hne : name ≠ nn := by intro e; subst e; rw [hs] at hnn; cases hnn
     refine ⟨TCons.setTcp_absent hnn rfl (Or.inl rfl), ⟨s, by rw [setTcp_tcp_other _ _ _ _ hne]; exact hs, rfl⟩, ?_, by simp⟩
-    refine AccConnsOk.mono hv ?_ (Nat.le_refl _)
+    refine accConnsOk_mono hv ?_ (Nat.le_refl _)
     intro s' a' hs' hacc
     rw [setTcp_tcp_other _ _ _ _ hne] at hs'
     exact ⟨s', a', hs', hacc, fun c hc => hc⟩
@@ -1085,7 +1072,7 @@ theorem accAcceptPrep_props (n : NetSt) (now : Int) (name : String) (op : Accept
     connections are valid channels. -/
 theorem tcons_accAsyncAccept (n : NetSt) (now : Int) (name : String) (op : AcceptOp) (s : TcpSock)
     (hs : n.tcp? name = some s) (hacc : s.acc.isSome)
-    (hfresh : ∀ h nn, op = .fresh h nn → n.tcp? nn = none) (hv : AccConnsOk n name) :
+    (hfresh : ∀ h nn, op = .fresh h nn → n.tcp? nn = none) (hv : accConnsOk n name) :
     TCons n (n.accAsyncAccept now name op).1 (n.accAsyncAccept now name op).2 [op.h] := by
   rw [accAsyncAccept_eq]
   obtain ⟨h0, ⟨s', hs', ha'⟩, hv', _⟩ := accAcceptPrep_props n now name op s hs hfresh hv
@@ -1111,9 +1098,9 @@ theorem tcons_accAsyncAccept (n : NetSt) (now : Int) (name : String) (op : Accep
         simp only [Option.bind_some, Option.map_some, Option.toList_some, Option.map_none, Option.toList_none] at hc ⊢
         perm_omega hc
       · unfold TcpSock.recvExcl at *; dsimp only; rw [g1, g2]; exact hx
-    have hv2 : AccConnsOk ((accAcceptPrep n now name op).1.setTcp name
+    have hv2 : accConnsOk ((accAcceptPrep n now name op).1.setTcp name
           { s'.abortAccept.1 with acc := some { a with acceptOp := some op } }) name := by
-      refine AccConnsOk.mono hv' ?_ (Nat.le_refl _)
+      refine accConnsOk_mono hv' ?_ (Nat.le_refl _)
       intro s2 a2 hs2 hacc2
       rw [setTcp_tcp_same] at hs2; cases hs2
       simp only [Option.some.injEq] at hacc2; subst hacc2
@@ -1134,7 +1121,7 @@ theorem ni_accAsyncAccept (n : NetSt) (now : Int) (name : String) (op : AcceptOp
   splits <;> simp [h0, ni_tcp_abortAccept, ni_accCheckQueue]
 
 /-- **`acceptor::close()`** conserves handler ids (queued connections valid) -/
-theorem tcons_accClose (n : NetSt) (now : Int) (name : String) (hv : AccConnsOk n name) :
+theorem tcons_accClose (n : NetSt) (now : Int) (name : String) (hv : accConnsOk n name) :
     TCons n (n.accClose now name).1 (n.accClose now name).2 [] := by
   unfold NetSt.accClose
   cases hs : n.tcp? name with
@@ -1157,8 +1144,8 @@ theorem tcons_accClose (n : NetSt) (now : Int) (name : String) (hv : AccConnsOk 
         exact tcp_conserve_abortAccept s1
       · unfold TcpSock.recvExcl at *; rw [g1, g2, e1, e2]; exact hx
     have h2 := tcons_tcpClose (n.setTcp name s1.abortAccept.1) now name
-    have hv2 : AccConnsOk ((n.setTcp name s1.abortAccept.1).tcpClose now name).1 name := by
-      refine AccConnsOk.mono hv ?_ (by rw [chanLen_tcpClose]; exact Nat.le_refl _)
+    have hv2 : accConnsOk ((n.setTcp name s1.abortAccept.1).tcpClose now name).1 name := by
+      refine accConnsOk_mono hv ?_ (by rw [chanLen_tcpClose]; exact Nat.le_refl _)
       intro s2 a2 hs2 hacc2
       obtain ⟨t', ht', hta⟩ := tcpClose_acc (n.setTcp name s1.abortAccept.1) now name name _ (setTcp_tcp_same _ _ _)
       rw [ht'] at hs2; cases hs2
